@@ -32,6 +32,8 @@ class OpcodeTableUnit(Unit):
             out.append((k, op.value, [(n, getattr(sa, n)) for n in sa.keys]))
         # "exposes under a standard command name": what a look-up BY NAME yields for every standard name, listed by
         # this set or not (a name the set does not list must not resolve to some other entry)
+        # names map to values and back: the reverse look-up of every listed entry returns that entry's own name
+        self.reverse = [(k, t[getattr(t, k)]) for k in t.keys]
         self.by_name = []
         listed = set(t.keys)
         for name in sorted(T.OPCODES):
@@ -47,6 +49,8 @@ class OpcodeTableUnit(Unit):
             yield "C14", "table-readable", False
             return
         yield "C14", "table-nonempty", len(out.value) > 0
+        for k, back in self.reverse:
+            yield "C14", "reverse-lookup-of-entry-returns-its-own-name:%s" % k, back == k
         for name, v, listed in self.by_name:
             if not listed:
                 yield "C14", "name-not-listed-by-this-set-resolves-to-the-T10-code-or-not-at-all:%s==0x%02X" % (name, T.OPCODES[name]), v == T.OPCODES[name]
